@@ -26,6 +26,7 @@ type Master struct {
 	PsyncReply func(p Psync) string
 	Password   string
 	Role       string // for INFO replication, default master
+	Unknown    map[string]bool // command names answered with Redis >= 5's "unknown command ... with args beginning with" error
 
 	acks   []int64
 	ackAt  []int // connection index of each ack
@@ -126,6 +127,16 @@ func (m *Master) Serve(c net.Conn) {
 			continue
 		}
 		reply := ""
+		if m.Unknown[strings.ToLower(argv[0])] {
+			msg := "-ERR unknown command `" + argv[0] + "`, with args beginning with: "
+			for _, a := range argv[1:] {
+				msg += "`" + a + "`, "
+			}
+			if _, err := c.Write([]byte(msg + "\r\n")); err != nil {
+				return
+			}
+			continue
+		}
 		switch strings.ToLower(argv[0]) {
 		case "auth":
 			if len(argv) == 2 && argv[1] == m.Password {
